@@ -112,6 +112,8 @@ class CholLinearOperator(RootLinearOperator):
         inv_quad_rhs: Union[Float[Tensor, "*batch N M"], Float[Tensor, "*batch N"]],
         reduce_inv_quad: bool = True,
     ) -> Union[Float[Tensor, "*batch M"], Float[Tensor, " *batch"]]:
+        if inv_quad_rhs.dim() == 1:
+            inv_quad_rhs = inv_quad_rhs.unsqueeze(-1)
         if self.upper:
             R = self.root._transpose_nonbatch().solve(inv_quad_rhs)
         else:
